@@ -28,15 +28,14 @@ fn arg(args: &[String], name: &str) -> Option<String> {
 fn budgets(prop: &str, tier: &str) -> u64 {
     // run counts calibrated so that quick is about a minute and thorough about ten on 16 cores
     let quick: u64 = match prop {
-        "C01" | "C17" => 3000,
-        "C02" | "C03" | "C10" => 2500,
-        "C04" | "C05" | "C06" | "C11" | "C12" | "C15" | "C16" | "C18" | "C20" => 2500,
-        "C07" => 1500,
-        "C08" => 1500,
-        "C09" => 400,
-        "C13" => 1500,
-        "C14" => 800,
-        _ => 1000,
+        "C01" | "C17" | "C18" => 30000,
+        "C02" | "C03" | "C15" | "C20" => 25000,
+        "C04" | "C05" | "C06" | "C10" | "C12" | "C16" => 20000,
+        "C11" => 18000,
+        "C07" | "C08" => 15000,
+        "C13" => 12000,
+        "C09" | "C14" => 8000,
+        _ => 10000,
     };
     if tier == "thorough" {
         quick * 12
